@@ -7,11 +7,11 @@ cd /repo || exit 2
 git diff --quiet || { echo "/repo not clean"; exit 2; }
 demo_pkg_dir=$(cat $sd/demo_dir 2>/dev/null || echo .)
 echo "== demo WITHOUT the change"
-cp $sd/demo_test.go $demo_pkg_dir/zz_demo_test.go
-go test -vet=off -count=1 -run "$(cat $sd/demo_run 2>/dev/null || echo .)" $demo_pkg_dir 2>&1 | tail -3
+cp $sd/demo_test.go $demo_pkg_dir/zz_demo_test.go; [ -f $sd/demo_flags ] && DEMOFLAGS=$(cat $sd/demo_flags)
+go test $DEMOFLAGS -vet=off -count=1 -run "$(cat $sd/demo_run 2>/dev/null || echo .)" $demo_pkg_dir 2>&1 | tail -3
 git apply $sd/patch.diff || { echo "patch does not apply"; rm -f $demo_pkg_dir/zz_demo_test.go; exit 2; }
 echo "== demo WITH the change"
-go test -vet=off -count=1 -run "$(cat $sd/demo_run 2>/dev/null || echo .)" $demo_pkg_dir 2>&1 | tail -4
+go test $DEMOFLAGS -vet=off -count=1 -run "$(cat $sd/demo_run 2>/dev/null || echo .)" $demo_pkg_dir 2>&1 | tail -4
 rm -f $demo_pkg_dir/zz_demo_test.go
 echo "== existing suite WITH the change"
 go build ./... && go test -vet=off -count=1 ./... 2>&1 | tail -3
